@@ -3,7 +3,10 @@
 extern "C" {
 #include <OCTET_STRING.h>
 #include <BIT_STRING.h>
+#include <REAL.h>
 }
+#pragma weak asn_REAL2double      // programs without REAL do not link REAL.c
+
 
 static bool parse_hdr(const uint8_t *p, size_t n, Tlv &t) {
     if(n < 2) return false;
@@ -170,6 +173,10 @@ static bool rewrite(const uint8_t *p, size_t n, Bytes &o, Rng &rng, const VarCfg
             vs.segmented++;
         } else {
             Bytes content(c, c + t.len);
+            if(cfg.hints && !cfg.hints->alt.empty() && rng.chance(1, 2)) {
+                auto it = cfg.hints->alt.find(content);
+                if(it != cfg.hints->alt.end() && !it->second.empty()) { content = it->second[rng.below(it->second.size())]; vs.alternative++; }
+            }
             emit_tlv(o, t, false, content, rng, cfg, vs, false);
         }
         off += t.total;
@@ -195,6 +202,25 @@ void ber_collect_hints(const asn_TYPE_descriptor_t *td, void *st, BerHints &h) {
         } else if(k == K_BIT_STRING) {
             const BIT_STRING_t *s = (const BIT_STRING_t *)n.ptr;
             if(s->buf && s->size) { Bytes b; b.push_back((uint8_t)(s->bits_unused & 7)); b.insert(b.end(), s->buf, s->buf + s->size); h.bitstrings.insert(b); }
+        } else if(k == K_NATIVE_REAL || k == K_REAL) {
+            // X.690 8.5: the same REAL may arrive in decimal (ISO 6093 NR1-3, '.' or ',') or other binary forms; asn1c only emits base-2 binary
+            EncResult e = encode_to_vec((asn_TYPE_descriptor_t *)n.td, n.ptr, SY_DER);
+            Tlv t;
+            if(e.encoded > 0 && tlv_parse(e.out.data(), e.out.size(), t) && !t.constructed) {
+                Bytes key(e.out.begin() + t.hdr, e.out.begin() + t.hdr + t.len);
+                double d = 0; bool have = false;
+                if(k == K_NATIVE_REAL) { size_t fs = struct_size_of(n.td); d = fs == sizeof(float) ? (double)*(const float *)n.ptr : *(const double *)n.ptr; have = true; }
+                else if(asn_REAL2double && asn_REAL2double((const REAL_t *)n.ptr, &d) == 0) have = true;
+                std::vector<Bytes> alts;
+                auto text = [&](uint8_t form, const char *fmt, bool comma) { char b[64]; int m = snprintf(b, sizeof b, fmt, d); if(m <= 0 || m >= (int)sizeof b) return; Bytes a; a.push_back(form);
+                    for(int i = 0; i < m; i++) a.push_back((uint8_t)(comma && b[i] == '.' ? ',' : b[i])); alts.push_back(a); };
+                if(have && d == d && d - d == 0) {                     // finite
+                    text(0x03, "%.17E", false); text(0x03, "%.17E", true); text(0x02, "%.6f", false); text(0x02, "%.3f", true); text(0x03, " %.9e", true);
+                    if(d == (double)(long)d && d < 1e15 && d > -1e15) text(0x01, "%.0f", false);
+                }
+                alts.push_back(Bytes{0x40}); alts.push_back(Bytes{0x41}); alts.push_back(Bytes{0x42}); alts.push_back(Bytes{0x43});
+                h.alt[key] = alts;
+            }
         }
         return true;
     }, 20000);
